@@ -103,7 +103,7 @@ def rule_lay1(ctx: Ctx) -> RuleResult:
 
 
 def rule_lay2(ctx: Ctx) -> RuleResult:
-    rr = RuleResult("LAY-2", "one generator and one class text per structure entry; nested classes are forwarded", floor=6)
+    rr = RuleResult("LAY-2", "one generator and one class text per structure entry; nested classes are forwarded", floor=4)
     prog = ctx.prog
     g = prog.func("json_to_models/models/base.py", "_generate_code")
     loops = [n for n in walk_no_nested(g.node) if isinstance(n, ast.For)]
